@@ -274,23 +274,29 @@ def xferInterpret (d : Bytes) : Py SData := do
 
 /-! ### InputOutputControlByIdentifier -/
 
+/-- the echo of the control parameter, and the offset of the data that follows -/
+def ioCpEcho (cp : Option Nat) (d : Bytes) : Py (Option Nat × Nat) :=
+  match cp with
+  | some _ => do
+    guardPy (decide (d.length < 2)) .invalid
+    let b ← idx d 2
+    pure (some b.toNat, 3)
+  | none => pure (none, 2)
+
+/-- trimming of tolerated zero padding, then `codec.decode(remaining_data)` (any exception becomes InvalidResponseException) -/
+def ioDecode (e : IoEntry) (tol : Bool) (did : Nat) (cpEcho : Option Nat) (remaining : Bytes) : Py SData :=
+  let size := match e.codecLen with | some n => n | none => remaining.length
+  let data := if remaining.length > size && allZero (remaining.drop size) && tol then remaining.take size else remaining
+  match e.codecLen with
+  | some n => if data.length = n then pure (.io did cpEcho (some data)) else throw .invalid
+  | none => pure (.io did cpEcho (some data))
+
 def ioInterpret (cfg : IoCfg) (cp : Option Nat) (tol : Bool) (d : Bytes) : Py SData := do
   guardPy (decide (d.length < (if cp.isSome then 3 else 2))) .invalid
   let did ← unpackBE 2 (d.take 2)
   let e ← fetchIoEntry cfg did
-  let (cpEcho, next) ← match cp with
-    | some _ => do
-      guardPy (decide (d.length < 2)) .invalid
-      let b ← idx d 2
-      pure (some b.toNat, 3)
-    | none => pure (none, 2)
-  let remaining := d.drop next
-  let size := match e.codecLen with | some n => n | none => d.length - next
-  let data := if remaining.length > size && allZero (remaining.drop size) && tol then remaining.take size else remaining
-  -- `codec.decode(remaining_data)`: any exception becomes InvalidResponseException
-  match e.codecLen with
-  | some n => if data.length = n then pure (.io did cpEcho (some data)) else throw .invalid
-  | none => pure (.io did cpEcho (some data))
+  let p ← ioCpEcho cp d
+  ioDecode e tol did p.1 (d.drop p.2)
 
 def ioClient (cfg : IoCfg) (did : Nat) (cp : Option Nat) (tol : Bool) (d : Bytes) : Py SData := do
   let r ← ioInterpret cfg cp tol d
@@ -300,53 +306,63 @@ def ioClient (cfg : IoCfg) (did : Nat) (cp : Option Nat) (tol : Bool) (d : Bytes
 
 /-! ### RequestFileTransfer -/
 
+def rftHasLfid (moop : Nat) : Bool := moop == 1 || moop == 6 || moop == 3 || moop == 4 || moop == 5
+
+/-- maxNumberOfBlockLength: value and the cursor after it -/
+def rftMaxLen (moop : Nat) (d : Bytes) : Py (Option Nat × Nat) :=
+  if rftHasLfid moop then do
+    guardPy (decide (d.length < 2)) .invalid
+    let l ← idx d 1
+    guardPy (decide (l.toNat > 8)) .notImpl
+    guardPy (l.toNat == 0) .invalid
+    guardPy (decide (d.length < 2 + l.toNat)) .invalid
+    let v ← readUIntAt d 2 l.toNat
+    pure (some v, 2 + l.toNat)
+  else pure (none, 1)
+
+/-- dataFormatIdentifier echo -/
+def rftDfiEcho (moop : Nat) (d : Bytes) (c1 : Nat) : Py (Option Nat × Nat) :=
+  if rftHasLfid moop then do
+    guardPy (decide (d.length < c1 + 1)) .invalid
+    let b ← idx d c1
+    guardPy (moop == 5 && b.toNat != 0) .invalid
+    pure (some b.toNat, c1 + 1)
+  else pure (none, c1)
+
+/-- fileSizeOrDirInfoParameterLength and the size(s) -/
+def rftSizes (moop : Nat) (d : Bytes) (c2 : Nat) : Py (Option Nat × Option Nat × Nat) :=
+  if moop == 4 || moop == 5 then do
+    guardPy (decide (d.length < c2 + 2)) .invalid
+    let n ← unpackBE 2 ((d.drop c2).take 2)
+    guardPy (decide (n > 8)) .notImpl
+    guardPy (n == 0) .invalid
+    guardPy (decide (d.length < c2 + 2 + n)) .invalid
+    let u ← readUIntAt d (c2 + 2) n
+    if moop == 4 then do
+      guardPy (decide (d.length < c2 + 2 + n + n)) .invalid
+      let c ← readUIntAt d (c2 + 2 + n) n
+      pure (some u, some c, c2 + 2 + n + n)
+    else pure (some u, none, c2 + 2 + n)
+  else pure (none, none, c2)
+
+/-- filePosition (ResumeFile): always 8 bytes -/
+def rftFilePos (moop : Nat) (d : Bytes) (c3 : Nat) : Py (Option Nat × Nat) :=
+  if moop == 6 then do
+    guardPy (decide (d.length < c3 + 8)) .invalid
+    let v ← readUIntAt d c3 8
+    pure (some v, c3 + 8)
+  else pure (none, c3)
+
 def rftInterpret (tol : Bool) (d : Bytes) : Py SData := do
   guardPy (decide (d.length < 1)) .invalid
   let m ← idx d 0
   let moop := m.toNat
-  let hasLfid := moop == 1 || moop == 6 || moop == 3 || moop == 4 || moop == 5
-  let hasFsl := moop == 4 || moop == 5
-  -- maxNumberOfBlockLength
-  let (maxLen, c1) ← if hasLfid then do
-      guardPy (decide (d.length < 2)) .invalid
-      let l ← idx d 1
-      guardPy (decide (l.toNat > 8)) .notImpl
-      guardPy (l.toNat == 0) .invalid
-      guardPy (decide (d.length < 2 + l.toNat)) .invalid
-      let v ← readUIntAt d 2 l.toNat
-      pure (some v, 2 + l.toNat)
-    else pure (none, 1)
-  -- dataFormatIdentifier
-  let (dfi, c2) ← if hasLfid then do
-      guardPy (decide (d.length < c1 + 1)) .invalid
-      let b ← idx d c1
-      guardPy (moop == 5 && b.toNat != 0) .invalid
-      pure (some b.toNat, c1 + 1)
-    else pure (none, c1)
-  -- fileSizeOrDirInfoParameterLength + sizes
-  let (unc, comp, c3) ← if hasFsl then do
-      guardPy (decide (d.length < c2 + 2)) .invalid
-      let n ← unpackBE 2 ((d.drop c2).take 2)
-      guardPy (decide (n > 8)) .notImpl
-      guardPy (n == 0) .invalid
-      guardPy (decide (d.length < c2 + 2 + n)) .invalid
-      let u ← readUIntAt d (c2 + 2) n
-      if moop == 4 then do
-        guardPy (decide (d.length < c2 + 2 + n + n)) .invalid
-        let c ← readUIntAt d (c2 + 2 + n) n
-        pure (some u, some c, c2 + 2 + n + n)
-      else pure (some u, none, c2 + 2 + n)
-    else pure (none, none, c2)
-  -- filePosition
-  let (fpos, c4) ← if moop == 6 then do
-      guardPy (decide (d.length < c3 + 8)) .invalid
-      let v ← readUIntAt d c3 8
-      pure (some v, c3 + 8)
-    else pure (none, c3)
-  guardPy (decide (d.length > c4) && !(allZero (d.drop c4) && tol)) .invalid
-  let fs := if moop == 4 then unc.map (fun u => (u, comp)) else none
-  let di := if moop == 5 then unc else none
-  pure (.rft moop maxLen dfi fs di fpos)
+  let p1 ← rftMaxLen moop d
+  let p2 ← rftDfiEcho moop d p1.2
+  let p3 ← rftSizes moop d p2.2
+  let p4 ← rftFilePos moop d p3.2.2
+  guardPy (decide (d.length > p4.2) && !(allZero (d.drop p4.2) && tol)) .invalid
+  pure (.rft moop p1.1 p2.1 (if moop == 4 then p3.1.map (fun u => (u, p3.2.1)) else none) (if moop == 5 then p3.1 else none) p4.1)
 
 /-- `request_file_transfer`: mode-of-operation echo (reported first when decoding failed after it was read) and
     DataFormatIdentifier echo against the value transmitted -/
@@ -377,32 +393,30 @@ def extractLen16 (rest : Bytes) : Py (Bytes × Bytes) :=
 def extractFields : List String → Bytes → Py (List (String × Bytes) × Bytes)
   | [], rest => pure ([], rest)
   | n :: ns, rest => do
-    let (v, r) ← extractLen16 rest
-    let (tl, r') ← extractFields ns r
-    pure ((n, v) :: tl, r')
+    let p ← extractLen16 rest
+    let q ← extractFields ns p.2
+    pure ((n, p.1) :: q.1, q.2)
+
+/-- the parameters of each authentication task's response, and what is left after them -/
+def authFields (t : Nat) (rest : Bytes) : Py (List (String × Bytes) × Bytes) :=
+  if t == 0 || t == 4 || t == 8 then pure ([], rest)
+  else if t == 1 then extractFields ["challengeServer", "ephemeralPublicKeyServer"] rest
+  else if t == 2 then extractFields ["challengeServer", "certificateServer", "proofOfOwnershipServer", "ephemeralPublicKeyServer"] rest
+  else if t == 3 then extractFields ["sessionKeyInfo"] rest
+  else if t == 5 || t == 6 || t == 7 then do
+    guardPy (decide (rest.length < 16)) .invalid
+    let q ← extractFields (if t == 5 then ["challengeServer", "neededAdditionalParameter"]
+        else if t == 7 then ["proofOfOwnershipServer", "sessionKeyInfo"] else ["sessionKeyInfo"]) (rest.drop 16)
+    pure (("algorithmIndicator", rest.take 16) :: q.1, q.2)
+  else throw .invalid
 
 def authInterpret (d : Bytes) : Py SData := do
   guardPy (decide (d.length < 2)) .invalid
   let sf ← idx d 0
   let rv ← idx d 1
-  let rest := d.drop 2
-  let t := sf.toNat
-  let (fields, tail) ←
-    if t == 0 || t == 4 || t == 8 then pure ([], rest)
-    else if t == 1 then extractFields ["challengeServer", "ephemeralPublicKeyServer"] rest
-    else if t == 2 then extractFields ["challengeServer", "certificateServer", "proofOfOwnershipServer", "ephemeralPublicKeyServer"] rest
-    else if t == 3 then extractFields ["sessionKeyInfo"] rest
-    else if t == 5 || t == 6 || t == 7 then do
-      guardPy (decide (rest.length < 16)) .invalid
-      let al := rest.take 16
-      let r2 := rest.drop 16
-      let (fs, tl) ← if t == 5 then extractFields ["challengeServer", "neededAdditionalParameter"] r2
-        else if t == 7 then extractFields ["proofOfOwnershipServer", "sessionKeyInfo"] r2
-        else extractFields ["sessionKeyInfo"] r2
-      pure (("algorithmIndicator", al) :: fs, tl)
-    else throw .invalid
-  guardPy (decide (tail.length > 0)) .invalid
-  pure (.auth t rv.toNat fields)
+  let p ← authFields sf.toNat (d.drop 2)
+  guardPy (decide (p.2.length > 0)) .invalid
+  pure (.auth sf.toNat rv.toNat p.1)
 
 def authClient (task : Nat) (d : Bytes) : Py SData := do
   let r ← authInterpret d
